@@ -17,24 +17,26 @@ import (
 )
 
 // rtCase: one Router handler "h" whose publisher / subscriber carry the metrics decorator kp / ks times and whose
-// handler function is wrapped once by the metrics middleware; the handler's behaviour per message is scripted.
+// handler function is wrapped km times (normally once) by the metrics middleware; the handler's behaviour per message is scripted.
 type rtCase struct {
 	kp, ks   int
+	km       int      // number of times the metrics middleware is registered (the property speaks of once)
 	script   []bool   // innermost publisher: true = that Publish call fails
 	outcomes []string // s<k> success with k outputs | e error | p panic
 }
 
 func (c rtCase) head() string {
-	return "rt " + wh.Itoa(c.kp) + " " + wh.Itoa(c.ks) + " " + bits(c.script) + " " + joinOr(c.outcomes, ",")
+	return "rt " + wh.Itoa(c.kp) + " " + wh.Itoa(c.ks) + " " + wh.Itoa(c.km) + " " + bits(c.script) + " " + joinOr(c.outcomes, ",")
 }
 
 func parseRt(f []string) rtCase {
 	var c rtCase
 	c.kp, _ = strconv.Atoi(f[1])
 	c.ks, _ = strconv.Atoi(f[2])
-	c.script = parseBits(f[3])
-	if f[4] != "-" {
-		c.outcomes = strings.Split(f[4], ",")
+	c.km, _ = strconv.Atoi(f[3])
+	c.script = parseBits(f[4])
+	if f[5] != "-" {
+		c.outcomes = strings.Split(f[5], ",")
 	}
 	return c
 }
@@ -88,13 +90,21 @@ func runRt(c rtCase) (string, string) {
 	if err != nil {
 		return c.head() + rec, "router-error"
 	}
-	for i := 0; i < c.kp; i++ {
+	kp, ks, km := c.kp, c.ks, c.km
+	if kp > 0 && ks > 0 && km > 0 {
+		// the convenience function of the builder adds one of each
+		b.AddPrometheusRouterMetrics(r)
+		kp, ks, km = kp-1, ks-1, km-1
+	}
+	for i := 0; i < kp; i++ {
 		r.AddPublisherDecorators(b.DecoratePublisher)
 	}
-	for i := 0; i < c.ks; i++ {
+	for i := 0; i < ks; i++ {
 		r.AddSubscriberDecorators(b.DecorateSubscriber)
 	}
-	r.AddMiddleware(b.NewRouterMiddleware().Middleware)
+	for i := 0; i < km; i++ {
+		r.AddMiddleware(b.NewRouterMiddleware().Middleware)
+	}
 	var mu sync.Mutex
 	inv := 0
 	idx := map[string]int{}
@@ -166,7 +176,7 @@ func runRt(c rtCase) (string, string) {
 	mu.Lock()
 	ninv := inv
 	mu.Unlock()
-	expect := ninv
+	expect := ninv * c.km
 	if c.kp > 0 {
 		expect += len(calls)
 	}
